@@ -716,5 +716,5 @@ func init() {
 }
 
 func genOrders(r *Rng, seed uint64) OrderSpec {
-	return OrderSpec{Chars: pick(r, []string{"sorted", "reverse", "perm", "perm"}), Words: pick(r, []string{"sorted", "reverse", "perm", "perm"}), Visit: pick(r, []string{"native", "sorted", "reverse", "perm", "twinfirst", "twinlast"}), Seed: mix(seed, "order")}
+	return OrderSpec{Chars: pick(r, []string{"sorted", "reverse", "perm", "perm"}), Words: pick(r, []string{"sorted", "reverse", "perm", "perm"}), Visit: pick(r, []string{"sorted", "reverse", "perm", "twinfirst", "twinlast"}), Seed: mix(seed, "order")}
 }
